@@ -32,6 +32,19 @@ def gen_cases(tier, seed):
         g = {"family": "modules", "spec": spec, "unordered": False}
         erng = Rng(derive(seed, PROP, "env", i))
         yield {"prop": PROP, "id": "g%d" % i, "batch": "graphs", "gen": g, "envs": envs_for(erng, 4 if quick else 6, quick)}
+    # wide graphs: the entry imports 30-60 modules, under a limit on open descriptors far below that number — what a module
+    # needs while it is loaded must be given back when it is loaded
+    for i in range(8 if quick else 40):
+        rng = Rng(derive(seed, PROP, "wide", i))
+        nmod = rng.choice([30, 45, 60])
+        mods = [{"dir": "", "stmts": [["say", "a0"]] + [["import", j, "mod"] for j in range(1, nmod + 1)]}]
+        mods += [{"dir": "", "stmts": [["say", "q%d" % (j % 7)]]} for j in range(1, nmod + 1)]
+        g = {"family": "modules", "spec": {"mods": mods}, "unordered": False}
+        envs = modelcheck.gen_envs(rng, 2, quick)
+        for e in envs:
+            e["nofile"] = rng.choice([20, 24, 28])
+            e["flags"] = []          # (logging every instruction of 60 module loads is slow, and beside the point here)
+        yield {"prop": PROP, "id": "w%d" % i, "batch": "wide", "gen": g, "envs": envs}
     for i in range(400 if quick else 4000):
         rng = Rng(derive(seed, PROP, "neg", i))
         spec = gens.modules.generate(rng, max_mods=4, negative=True)
